@@ -143,6 +143,14 @@ def run_dispatch(case):
                     reg = _norm(b['reg'])
                     if add(reg):
                         volatile.setdefault(k, []).append(reg)
+                elif b['action'] == 'add-remove':
+                    # a start()/stop() pair inside one callback: the registration is made and taken back while this packet is being
+                    # dispatched; it must not receive this packet's successors
+                    reg = _norm(b['reg'])
+                    if add(reg):
+                        volatile.setdefault(k, []).append(reg)
+                        remove(reg)
+                        out.feat('added-and-removed-within-one-dispatch')
                 elif b['action'] == 'close':
                     close_link(b.get('idle', 1))
                 elif b['action'] == 'rewrite':
@@ -331,13 +339,13 @@ def _case(draw):
     nb = draw(st.integers(0, 4))
     beh = []
     for _ in range(nb):
-        action = draw(st.sampled_from(['raise', 'remove', 'remove', 'add']))
+        action = draw(st.sampled_from(['raise', 'remove', 'remove', 'add', 'add-remove']))
         b = {'cb': draw(st.sampled_from(regs))['cb'], 'packet': draw(st.integers(0, len(packets) - 1)), 'action': action}
         if action == 'remove':
             b['other'] = draw(st.booleans())
             b['target'] = draw(st.integers(0, 9))
-        if action == 'add':
-            b['reg'] = draw(_reg())
+        if action in ('add', 'add-remove'):
+            b['reg'] = draw(st.one_of(_reg(), st.sampled_from(regs).map(lambda r: dict(r, cmask=r['cmask'] ^ 1))))
         beh.append(b)
     for _ in range(draw(st.integers(0, 2))):
         action = draw(st.sampled_from(['remove', 'add']))
